@@ -579,11 +579,17 @@ impl WebSocketClient {
             .query_str(path.as_ref())
             .query_format_code(query_format);
         let msg = body_fn(builder)?.build();
+        #[cfg(feature = "verif-hooks")]
+        crate::verif::probe_async(&format!("cm_allocated:{id}")).await;
 
         let (sender, receiver) = oneshot::channel();
         let mut pending_guard = PendingRequestGuard::register(&self.inner, id, sender)?;
+        #[cfg(feature = "verif-hooks")]
+        crate::verif::probe_async(&format!("cm_registered:{id}")).await;
 
         self.write_request(&msg).await?;
+        #[cfg(feature = "verif-hooks")]
+        crate::verif::probe_async(&format!("cm_written:{id}")).await;
 
         let received = match timeout_duration {
             Some(duration) => match timeout(duration, receiver).await {
@@ -748,6 +754,8 @@ fn spawn_response_loop(mut reader: WsReader, inner: std::sync::Weak<WebSocketCli
                     break;
                 }
             };
+            #[cfg(feature = "verif-hooks")]
+            crate::verif::probe_async("cm_reader_read").await;
 
             let dispatch = {
                 let Some(inner_ref) = inner.upgrade() else {
